@@ -4,6 +4,7 @@ use serde_json::Value;
 use crate::framework::{Ctx, Report, Tier};
 
 pub mod c01;
+pub mod jobs;
 
 pub struct CheckDef {
     pub id: &'static str,
@@ -18,7 +19,9 @@ pub struct CheckDef {
 }
 
 pub fn all() -> Vec<CheckDef> {
-    vec![c01::def()]
+    let mut v = vec![c01::def()];
+    v.extend(jobs::defs());
+    v
 }
 
 pub fn find(id: &str) -> Option<CheckDef> {
